@@ -3,6 +3,7 @@
 package main
 
 import (
+	"errors"
 	"fmt"
 	"sort"
 	"testing"
@@ -14,6 +15,8 @@ import (
 
 // ---- C09: read/received marks only move forward and stay within bounds; note relaying.
 
+var errC09Injected = errors.New("vf injected failure of the marks update")
+
 type c09State struct {
 	lastSeq int
 	// per (user) marks as last stored, to check monotonicity within a subscription lifetime
@@ -24,6 +27,8 @@ type c09State struct {
 	// (read note beyond the received mark); reported once at the triggering step.
 	tainted     map[types.Uid]bool
 	allowBeyond bool
+	// marks as last reported to the user itself in {meta desc}
+	repRead, repRecv map[types.Uid]int
 }
 
 func (sc *pubScn) c09Rows() (map[types.Uid]vfmem.SubRow, map[types.Uid]vfmem.SubRow, int) {
@@ -43,6 +48,8 @@ func (sc *pubScn) c09CheckRows(st *c09State, what string, trigger string) {
 			delete(st.live, uid)
 			delete(st.read, uid)
 			delete(st.recv, uid)
+			delete(st.repRead, uid)
+			delete(st.repRecv, uid)
 			return
 		}
 		r.Hit("stored_marks_bounds")
@@ -76,6 +83,8 @@ func (sc *pubScn) c09CheckRows(st *c09State, what string, trigger string) {
 			delete(st.live, uid)
 			delete(st.read, uid)
 			delete(st.recv, uid)
+			delete(st.repRead, uid)
+			delete(st.repRecv, uid)
 		}
 	}
 	for uid, row := range grp {
@@ -114,9 +123,18 @@ func (sc *pubScn) c09Reported(a *pubActor, c *vfClient) {
 				// "neither mark ever decreases ... in every place they are reported": what the subscriber is told
 				// must not be below what has been stored for this subscription already
 				r.Hit("reported_marks_not_below_stored")
-				if u := a.actingUser().uid; rd < st.read[u] || rc < st.recv[u] {
+				u := a.actingUser().uid
+				if rd < st.read[u] || rc < st.recv[u] {
 					r.Violation("marks-decreased:reported:desc", fmt.Sprintf("{meta desc} for %s reports read=%d recv=%d, stored marks already reached read=%d recv=%d", a.role, rd, rc, st.read[u], st.recv[u]),
 						map[string]any{"script": sc.script, "frame": ans.Meta[0].Raw})
+				}
+				// ... nor below what the same subscriber has been told before
+				if !st.tainted[u] {
+					if rd < st.repRead[u] || rc < st.repRecv[u] {
+						r.Violation("marks-decreased:reported-vs-reported:desc", fmt.Sprintf("{meta desc} for %s reports read=%d recv=%d after it had reported read=%d recv=%d", a.role, rd, rc, st.repRead[u], st.repRecv[u]),
+							map[string]any{"script": sc.script, "frame": ans.Meta[0].Raw})
+					}
+					st.repRead[u], st.repRecv[u] = rd, rc
 				}
 			}
 			if rd < 0 || rd > rc || rc > seq || (sq != seq && sq != 0) {
@@ -376,7 +394,8 @@ func c09Scenario(w *vfWorld, r *vfkit.R, idx int) {
 		w.e.vfQuiesce()
 		sc.onMe = true
 	}
-	st := &c09State{read: map[types.Uid]int{}, recv: map[types.Uid]int{}, live: map[types.Uid]bool{}, tainted: map[types.Uid]bool{}}
+	st := &c09State{read: map[types.Uid]int{}, recv: map[types.Uid]int{}, live: map[types.Uid]bool{}, tainted: map[types.Uid]bool{},
+		repRead: map[types.Uid]int{}, repRecv: map[types.Uid]int{}}
 	st.allowBeyond = idx%5 == 0
 	sc.tainted = st.tainted
 	sc.c09st = st
@@ -408,6 +427,42 @@ func c09Scenario(w *vfWorld, r *vfkit.R, idx int) {
 			sc.noteStep(st, a, a.cs[0], -3)
 			sc.noteStepFixed = nil
 			r.Hit("read_beyond_recv_directed")
+			break
+		}
+	}
+	if kind == "grp" || kind == "p2p" {
+		// a reader publishes while the store fails to move the publisher's own marks; what the publisher is told about
+		// its marks must hold across a reload
+		for _, a := range sc.actors {
+			if a.role != "owner" && a.role != "peerA" {
+				continue
+			}
+			c := a.cs[0]
+			rows, _, _ := sc.c09Rows()
+			row, ok := rows[a.u.uid]
+			if !ok || row.DeletedAt != nil || !(row.ModeWant & row.ModeGiven).IsReader() || !(row.ModeWant & row.ModeGiven).IsWriter() || !c.attachState()[sc.nameFor(a)] {
+				break
+			}
+			fired := false
+			vfRec.setFault(func(cl *vfmem.Call) error {
+				if cl.Op == "SubsUpdate" && cl.Topic == sc.canon && !fired {
+					fired = true
+					return errC09Injected
+				}
+				return nil
+			})
+			f := sc.reqX(a, c, "pub", map[string]any{"topic": sc.nameFor(a), "content": "marks not stored"})
+			vfRec.setFault(nil)
+			w.e.vfQuiesce()
+			sc.log("pub by %s while the update of its own marks fails (fired=%v) -> %s", a.role, fired, codeStr(f))
+			sc.c09CheckRows(st, "publish", "publish")
+			if fired {
+				r.Hit("publisher_marks_update_failed")
+				sc.c09Reported(a, c)
+				sc.reload()
+				sc.c09CheckRows(st, "reload", "reload")
+				sc.c09Reported(a, c)
+			}
 			break
 		}
 	}
